@@ -6,7 +6,7 @@ Runtime monitor on the real FastAPI app (`nemoguardrails.server.api.app`, driven
 * `api.RailsConfig.from_path` is wrapped: every path the server asks to load is recorded
   (lexical abspath + realpath);
 * `api._get_rails` is wrapped (reach counter: the request got as far as config resolution);
-* `api.LLMRails` is replaced by a stub that records the config it was built from (marker
+* `api.LLMRails` is replaced (in 1 of 20 thread cases: sub-classed, see ASSUMPTIONS) by a stub that records the config it was built from (marker
   tokens of the config directories that went into it), records a deep copy of the `messages`
   handed to `generate_async`, and answers with a unique deterministic reply (as a plain dict
   or as a `GenerationResponse`, or raises — chosen by the case);
@@ -45,11 +45,17 @@ RULE = (
     "(A..B..A); distinct = the request sequence"
 )
 MIN_HELD = {"quick": 500, "thorough": 5000}
-MAX_INCONCLUSIVE = 0.02
+MAX_INCONCLUSIVE = 0.03
 EXHAUSTIVE = {"quick": False, "thorough": False}
 ASSUMPTIONS = [
     "the LLMRails class is replaced by a recording stub (non-streaming: main_llm_supports_streaming=False); "
-    "RailsConfig.from_path, RailsConfig.__add__, the request model, chat_completion, _get_rails and MemoryStore run unmodified",
+    "RailsConfig.from_path, RailsConfig.__add__, the request model, chat_completion, _get_rails and MemoryStore run unmodified; "
+    "every 20th thread sequence instead runs the unmodified LLMRails (offline fake LLM + fake embedding engine, config cfg_r) "
+    "with only generate_async wrapped for recording — this also checks that generation does not mutate the list it is handed",
+    "a generated reply is accepted for ANY id spelling provided every directory handed to from_path lies inside the root and "
+    "loaded successfully, or the very same id list was already loaded and served since the caches were last reset; "
+    "a failure AFTER all loads succeeded inside the root (RailsConfig.__add__ / rails construction on operator content) "
+    "is outside the statement and only counted (post_load_errors)",
     "startup events are not run (no static UI mount); single_config_mode/default_config_id are set directly on the app",
     "'located inside the root' is judged on the realpath of the directory entry handed to RailsConfig.from_path, "
     "component-wise against realpath(root); the root itself is allowed. The one symlink in the layout (root/link_out -> "
@@ -63,7 +69,8 @@ ASSUMPTIONS = [
     "(monitor-not-reached, hard inconclusive) — a server that loads nothing satisfies the statement vacuously",
     "thread + stream=true with a streaming-capable LLM is NOT explored (api.py documents 'TODO: Add support for "
     "thread_ids in streaming mode'); stream=true is only sent against the non-streaming stub (fallback path)",
-    "oracle: _expect() (12 lines) for ids, _thread_step() (10 lines) for threads",
+    "a failing generation (stub raises; 'Internal server error.' reply) must leave the store unchanged",
+    "oracle: _expect() + _inside() for ids, _thread_step() (10 lines) for threads",
 ]
 SAMPLE_EVERY = 211
 CASE_WALL_S = 60
@@ -75,7 +82,6 @@ WARM_CACHE_PLACEMENTS = True  # placements that do not clear the per-config cach
 # id grammar (parent side, light)
 # ----------------------------------------------------------------------------------------------
 GOOD = ("cfg_a", "cfg_b")
-MAY = ("cfg_a_evil", "file.yml", "link_out", ".", "")  # in-root entries that may legitimately load
 NAMES = [
     "cfg_a", "cfg_b", "cfg_a_evil", "emptydir", "file.yml", "notes.txt", "dir.yml", "link_out", "root", "root_evil",
     "outside", "nonexistent", "etc", "config.yml", "cfg_a-cfg_b", "cfg_a-cfg_a", "cfg_b-cfg_a", "CFG_A", "cfg_a.yml",
@@ -174,8 +180,8 @@ def cases(tier, seed):
             n += 1
             yield {"id": n, "fam": "special", "label": label, "frag": frag, "expect": exp, "mode": mode}
     rng = random.Random(2000 + seed)
-    n_id = 5200 if tier == "quick" else 64000
-    n_thr = 900 if tier == "quick" else 9000
+    n_id = 4000 if tier == "quick" else 48000
+    n_thr = 800 if tier == "quick" else 8000
     # interleave the two families so that --limit runs see both
     ratio = max(1, n_id // n_thr)
     made_id = made_thr = 0
@@ -198,7 +204,7 @@ def cases(tier, seed):
         if made_thr < n_thr:
             made_thr += 1
             n += 1
-            yield _gen_thread_case(n, rng)
+            yield _gen_thread_case(n, rng, real=(made_thr % 20 == 0))
 
 
 # ----------------------------------------------------------------------------------------------
@@ -234,7 +240,7 @@ def _thread_pool(rng):
     return pool[: rng.choice([1, 2, 2, 3, 3, 3])]
 
 
-def _gen_thread_case(n, rng):
+def _gen_thread_case(n, rng, real=False):
     pool = _thread_pool(rng)
     nreq = rng.randint(2, 12)
     reqs = []
@@ -278,8 +284,15 @@ def _gen_thread_case(n, rng):
             r["options"] = rng.choice([{"llm_params": {"temperature": 0.2}}, {"log": {"activated_rails": True}}, {"rails": {"input": False}}])
         if rng.random() < 0.06:
             r["fail"] = True
+        if real:
+            r.pop("fail", None)
+            if r["cfg"].get("config_id") in ("cfg_a", "cfg_b") or "config_ids" in r["cfg"]:
+                r["cfg"] = {"config_id": "cfg_r"}
         reqs.append(r)
-    return {"id": n, "fam": "thr", "reqs": reqs}
+    c = {"id": n, "fam": "thr", "reqs": reqs}
+    if real:
+        c["real"] = True
+    return c
 
 
 # ----------------------------------------------------------------------------------------------
@@ -329,6 +342,10 @@ def setup_worker():
     with open(os.path.join(root, "file.yml"), "w") as f:
         f.write('models: []\ninstructions:\n  - type: general\n    content: "%s"\n' % _mark("file.yml"))
     os.symlink("../outside", os.path.join(root, "link_out"))
+    os.makedirs(os.path.join(root, "cfg_r"))
+    with open(os.path.join(root, "cfg_r", "config.yml"), "w") as f:
+        f.write("models:\n  - type: main\n    engine: c20fake\n    model: x\n  - type: embeddings\n    engine: c20emb\n    model: m\n"
+                'instructions:\n  - type: general\n    content: "%s"\n' % _mark("cfg_r"))
 
     rec = {"paths": [], "get_rails": [], "gen": [], "built": [], "ctl": {}}
     real_rc = api.RailsConfig
@@ -381,17 +398,78 @@ def setup_worker():
                 return GenerationResponse(response=[reply])
             return reply
 
+    RealRails, real_err = None, None
+    try:
+        RealRails = _make_real_rails(rec)
+    except Exception as e:  # the real-LLMRails variant is an extra; its absence is reported per case
+        real_err = "%s: %s" % (type(e).__name__, str(e)[:120])
     api.RailsConfig = RCProxy()
     api._get_rails = get_rails_wrapper
     api.LLMRails = StubRails
     api.app.disable_chat_ui = True
     W.update(
-        api=api, base=base, root=root, rec=rec, MemoryStore=MemoryStore,
+        api=api, base=base, root=root, rec=rec, MemoryStore=MemoryStore, StubRails=StubRails, RealRails=RealRails, real_err=real_err,
         client=TestClient(api.app, raise_server_exceptions=True),
-        all_marks=[_mark(x) for x in ("cfg_a", "cfg_b", "cfg_a_evil", "dir.yml", "file.yml", "root_evil", "outside")],
-        in_marks=set(_mark(x) for x in ("cfg_a", "cfg_b", "cfg_a_evil", "dir.yml", "file.yml")),
+        all_marks=[_mark(x) for x in ("cfg_a", "cfg_b", "cfg_r", "cfg_a_evil", "dir.yml", "file.yml", "root_evil", "outside")],
+        in_marks=set(_mark(x) for x in ("cfg_a", "cfg_b", "cfg_r", "cfg_a_evil", "dir.yml", "file.yml")),
         counter=0,
     )
+
+
+def _make_real_rails(rec):
+    """The unmodified LLMRails driven by an offline fake LLM + fake embedding engine (config root/cfg_r); only
+    generate_async is wrapped to record what it is handed."""
+    from langchain.llms.base import LLM
+
+    from nemoguardrails import LLMRails
+    from nemoguardrails.embeddings.providers import register_embedding_provider
+    from nemoguardrails.embeddings.providers.base import EmbeddingModel
+    from nemoguardrails.llm.providers import register_llm_provider
+
+    class C20LLM(LLM):
+        @property
+        def _llm_type(self):
+            return "c20fake"
+
+        def _call(self, prompt, stop=None, run_manager=None, **kw):
+            return "REAL-REPLY %d" % len(prompt)
+
+        async def _acall(self, prompt, stop=None, run_manager=None, **kw):
+            return "REAL-REPLY %d" % len(prompt)
+
+    class C20Emb(EmbeddingModel):
+        engine_name = "c20emb"
+
+        def __init__(self, embedding_model=None, **kw):
+            self.model = embedding_model
+
+        def encode(self, documents):
+            return [[float(len(d) % 7), 1.0, float(sum(map(ord, d)) % 11)] for d in documents]
+
+        async def encode_async(self, documents):
+            return self.encode(documents)
+
+    register_llm_provider("c20fake", C20LLM)
+    register_embedding_provider(C20Emb, "c20emb")
+
+    class RealRails(LLMRails):
+        def __init__(self, config=None, llm=None, verbose=False, **kw):
+            super().__init__(config=config, verbose=False)
+            text = json.dumps([getattr(i, "content", str(i)) for i in (config.instructions or [])])
+            self.marks = sorted(set(m for m in W["all_marks"] if m in text))
+            rec["built"].append(self.marks)
+
+        async def generate_async(self, prompt=None, messages=None, options=None, state=None, streaming_handler=None, **kw):
+            before = json.dumps(messages)
+            g = {"messages": json.loads(before), "marks": self.marks, "streaming_handler": streaming_handler is not None}
+            rec["gen"].append(g)
+            try:
+                return await super().generate_async(prompt=prompt, messages=messages, options=options, state=state,
+                                                    streaming_handler=streaming_handler, **kw)
+            finally:
+                g["mutated_in_place"] = json.dumps(messages) != before
+
+    return RealRails
 
 
 def _resolve(parts):
@@ -427,6 +505,7 @@ def _reset(mode):
         app.single_config_id = None
         app.default_config_id = "cfg_b" if mode == "default" else None
     W["mode"] = mode
+    W["served"] = []
     W["cfg_root"] = os.path.realpath(app.rails_config_path)
 
 
@@ -442,16 +521,19 @@ def _inside(path, root):
 # ---- the id oracle (independent of the server code) ---------------------------------------------
 def _expect(ids, mode):
     """ids: the effective list of id strings of the request (None/[] = no id).  Returns one of
-    noid | must_load | may_load | must_fixed."""
+      noid       the documented "No 'config_id' provided" error, nothing loaded
+      must_load  plain name(s) of real configs: a generated reply is required (reach obligation)
+      any        either a generated reply whose every load succeeded inside the root (or which repeats an id list
+                 already served since the last reset), or the fixed reply; nothing else."""
     if not ids:
         return "must_load" if mode == "default" else "noid"
     if mode == "single":
-        return "must_load" if ids == ["cfg_a"] else "must_fixed"
-    if all(i in GOOD for i in ids):
-        return "must_load"
-    if all(i in GOOD or i in MAY for i in ids):
-        return "may_load"
-    return "must_fixed"
+        return "must_load" if ids == ["cfg_a"] else "any"
+    return "must_load" if all(i in GOOD for i in ids) else "any"
+
+
+def _is_plain_entry(ids):
+    return all(isinstance(i, str) and not any(ch in i for ch in "/\\\x00%") and ".." not in i for i in (ids or []))
 
 
 def _effective_ids(frag):
@@ -503,13 +585,15 @@ def _reply_kind(out, reply):
     if not isinstance(msgs, list) or len(msgs) != 1 or not isinstance(msgs[0], dict):
         return "other"
     c = msgs[0].get("content")
-    if msgs[0] == reply:
+    if reply is not None and msgs[0] == reply:
         return "success"
     if isinstance(c, str) and msgs[0].get("role") == "assistant":
         if c.startswith(FIXED_PREFIX) and c.endswith(FIXED_SUFFIX):
             return "fixed"
         if c == "Internal server error.":
             return "internal-error"
+        if reply is None and out["gen"]:
+            return "success"  # real LLMRails: the reply text is whatever the fake LLM produced
     return "other"
 
 
@@ -560,10 +644,11 @@ def _new_obs():
         "requests", "get_rails_calls", "from_path_calls", "paths_in_root", "loads_of_root_itself", "paths_unresolvable",
         "operator_symlink_loads", "fixed_replies", "success_replies", "noid_errors", "validation_422", "generation_calls",
         "warm_cache_requests", "served_from_cache", "thread_requests", "thread_store_checks", "failed_generations",
-        "internal_error_replies", "hostile_in_thread_sequence", "post_load_errors")}
+        "internal_error_replies", "hostile_in_thread_sequence", "post_load_errors", "inroot_loads_via_nonplain_id",
+        "real_rails_turns", "real_rails_cases")}
 
 
-def _judge_id_request(label, frag, ids, expect, obs, warm_keys=None):
+def _judge_id_request(label, frag, ids, expect, obs):
     """One request of the id family.  Returns (problem or None, reached: bool, trace)."""
     reply = {"role": "assistant", "content": "C20-REPLY-%d" % (W["counter"] + 1)}
     W["rec"]["ctl"] = {"reply": reply, "shape": "gr" if (W["counter"] % 2) else "dict"}
@@ -597,15 +682,22 @@ def _judge_id_request(label, frag, ids, expect, obs, warm_keys=None):
         obs["success_replies"] += 1
         if len(out["gen"]) != 1:
             return dict(base, kind="reply-without-generation"), reached, trace
-        if not out["paths"]:
-            obs["served_from_cache"] += 1
-        if expect == "must_fixed":
-            k = "unloadable-id-served"
-            if not out["paths"] and warm_keys and "-".join(ids) in warm_keys and ids not in warm_keys["-".join(ids)]:
-                k = "cache-key-join-collision"
-            return dict(base, kind=k, served_config_marks=out["gen"][0]["marks"]), reached, trace
+        eff = list(ids) if ids else ["cfg_b"]  # no id: only reachable in default mode, where the default is cfg_b
         if any(not p.get("ok") for p in out["paths"]):
             return dict(base, kind="served-after-failed-load"), reached, trace
+        if not out["paths"]:
+            # nothing was loaded for this request: only legitimate if exactly this id list was loaded and served before
+            obs["served_from_cache"] += 1
+            if eff not in W["served"]:
+                k = "served-without-load"
+                joined = ["-".join(x) for x in W["served"]]
+                if "-".join(eff) in joined:
+                    k = "cache-key-join-collision"  # structural: some other served id list has the same "-".join()
+                return dict(base, kind=k, served_config_marks=out["gen"][0]["marks"],
+                            id_lists_served_before=[_short(x, 80) for x in W["served"]][:8]), reached, trace
+        elif expect == "any" and not _is_plain_entry(ids):
+            obs["inroot_loads_via_nonplain_id"] += 1
+        W["served"].append(eff)
         return None, reached, trace
     if kind == "fixed":
         obs["fixed_replies"] += 1
@@ -615,7 +707,7 @@ def _judge_id_request(label, frag, ids, expect, obs, warm_keys=None):
             return dict(base, kind="monitor-not-reached"), reached, trace
         return None, reached, trace
     # anything else: neither a generated reply nor the fixed reply
-    if (kind.startswith("error:") and expect == "may_load" and out["paths"] and len(out["paths"]) == len(ids)
+    if (kind.startswith("error:") and expect == "any" and out["paths"] and len(out["paths"]) == len(ids)
             and all(p.get("ok") for p in out["paths"]) and not out["gen"]):
         # every id named an in-root entry and every load succeeded; what failed afterwards is the combination of
         # the loaded objects (RailsConfig.__add__ / rails construction) - operator content, not id handling
@@ -698,10 +790,8 @@ def _run_id_case(case):
         # the per-config cache is warmed by legitimate requests and NOT cleared before the probed ones
         _reset(mode)
         warm = [["cfg_a"]] if mode == "single" else [["cfg_a"], ["cfg_b"], ["cfg_a", "cfg_b"], ["cfg_b", "cfg_a"], ["cfg_a", "cfg_a"]]
-        warm_keys = {}
         for w in warm:
             prob, reached, trace = _judge_id_request("warm-up", {"config_ids": w}, w, _expect(w, mode), obs)
-            warm_keys.setdefault("-".join(w), []).append(w)
             if prob:
                 traces.append(trace)
                 return finish(prob)
@@ -712,7 +802,7 @@ def _run_id_case(case):
         for label, frag in probes:
             ids = _effective_ids(frag)
             obs["warm_cache_requests"] += 1
-            prob, reached, trace = _judge_id_request(label, frag, ids, _expect(ids, mode), obs, warm_keys=warm_keys)
+            prob, reached, trace = _judge_id_request(label, frag, ids, _expect(ids, mode), obs)
             traces.append(trace)
             reached_any = reached_any or reached
             if prob:
@@ -761,8 +851,13 @@ def _run_thread_case(case):
         return dict(res, verdict="violated", kind=kind, witness=w,
                     sample={"family": "thread", "trace": trace[-12:]})
 
+    real = bool(case.get("real"))
+    if real:
+        if W.get("RealRails") is None:
+            return dict(res, verdict="inconclusive", reason="real-rails-unavailable: %s" % W.get("real_err"), nontrivial=False)
+        obs["real_rails_cases"] = 1
     for i, req in enumerate(case["reqs"]):
-        reply = {"role": "assistant", "content": "C20-REPLY-%d-%d" % (case["id"], i)}
+        reply = None if real else {"role": "assistant", "content": "C20-REPLY-%d-%d" % (case["id"], i)}
         W["rec"]["ctl"] = {"reply": reply, "shape": req.get("shape", "dict"), "fail": bool(req.get("fail"))}
         body = dict(req["cfg"])
         body["messages"] = json.loads(json.dumps(req["messages"]))
@@ -777,6 +872,8 @@ def _run_thread_case(case):
         obs["generation_calls"] += len(out["gen"])
         obs["get_rails_calls"] += len(out["get_rails"])
         kind = _reply_kind(out, reply)
+        if real and kind == "success":
+            reply = out["json"]["messages"][0]  # whatever the real LLMRails answered
         ids = _effective_ids(req["cfg"])
         prob = _check_paths(out, ids, obs)
         if prob:
@@ -786,22 +883,23 @@ def _run_thread_case(case):
                       "seen_by_generation": len(out["gen"][0]["messages"]) if out["gen"] else None,
                       "stored_len": len(after.get("thread-" + tid, [])) if tid is not None else None})
         bad_tid = tid is not None and not (16 <= len(tid) <= 255)
-        hostile = _expect(ids, "multi") == "must_fixed"
         if bad_tid:
             # documented validation error: nothing generated, nothing stored
             if kind != "validation" or out["gen"] or after != before:
                 return viol("thread-id-validation", i, req, reply=kind, store_changed=after != before)
             obs["validation_422"] += 1
             continue
-        if hostile:
+        if kind == "fixed":
+            if all(x in GOOD or x == "cfg_r" for x in ids):
+                return viol("thread-request-fixed", i, req, reply=kind, why="a real config was refused")
             obs["hostile_in_thread_sequence"] += 1
-            if kind != "fixed" or out["gen"]:
-                return viol("unloadable-id-" + kind, i, req, reply=kind)
+            if out["gen"]:
+                return viol("generation-despite-fixed-reply", i, req, reply=kind)
             obs["fixed_replies"] += 1
             if after != before:
                 return viol("store-changed-by-rejected-request", i, req, before=_lens(before), after=_lens(after))
             continue
-        if kind == "validation" or kind == "fixed" or kind.startswith("error:") or kind == "noid" or kind == "other":
+        if kind == "validation" or kind.startswith("error:") or kind == "noid" or kind == "other":
             return viol("thread-request-" + kind, i, req, reply=kind, exc=out["exc"], exc_msg=out["exc_msg"], body=out["json"])
         if tid is not None:
             obs["thread_requests"] += 1
@@ -813,7 +911,11 @@ def _run_thread_case(case):
             return viol("thread-input-mismatch", i, req, expected=seen_expected, handed_to_generation=out["gen"][0]["messages"])
         if out["gen"][0]["streaming_handler"]:
             return viol("unexpected-streaming", i, req)
-        if req.get("fail"):
+        if real:
+            obs["real_rails_turns"] += 1
+            if out["gen"][0].get("mutated_in_place"):
+                obs["real_rails_mutated_messages"] = obs.get("real_rails_mutated_messages", 0) + 1
+        if req.get("fail") or (real and kind == "internal-error"):
             obs["failed_generations"] += 1
             if kind != "internal-error":
                 return viol("failed-generation-reply", i, req, reply=kind)
@@ -864,7 +966,14 @@ def _interleaved(order):
 
 def run_case(case):
     if case["fam"] == "thr":
-        return _run_thread_case(case)
+        api = W["api"]
+        try:
+            if case.get("real") and W.get("RealRails") is not None:
+                api.LLMRails = W["RealRails"]
+            return _run_thread_case(case)
+        finally:
+            api.LLMRails = W["StubRails"]
+            api.llm_rails_instances.clear()
     return _run_id_case(case)
 
 
@@ -874,7 +983,7 @@ def classify(r):
 
 def finalize(tier, seed, observed, counts):
     need = ["paths_in_root", "fixed_replies", "success_replies", "noid_errors", "validation_422", "thread_store_checks",
-            "served_from_cache", "interleaved_sequences", "failed_generations"]
+            "served_from_cache", "interleaved_sequences", "failed_generations", "real_rails_turns"]
     missing = [k for k in need if not observed.get(k)]
     out = {"coverage": {"reach_counters_required": need}}
     if missing:
